@@ -86,6 +86,7 @@ static void do_reinit(int oldnw, int newnw)
     VSA_CHECK((int)got == newnw, "num_waiters after reinit is %u, expected %d", got, newnw);
 }
 
+static int b_migrate, b_early;
 static void barrier_body(actor *a)
 {
     char b[16];
@@ -100,6 +101,14 @@ static void barrier_body(actor *a)
             VSA_CHECK(rc == ABT_ERR_BARRIER, "ABT_barrier_wait by tasklet A%d returned %d, expected ABT_ERR_BARRIER", a->id, rc);
         }
         return;
+    }
+    if (b_migrate && a->kind == AK_ULT && a->es >= 1 && a->user == NULL && sc_rnd(3) == 0) {
+        /* a migration request is pending when this waiter blocks in the barrier: the blocked count must follow it to the
+         * new pool (only towards the primary stream's pool, whose stream outlives every other one) */
+        ABT_thread self;
+        ABT_OK(ABT_self_get_thread(&self));
+        a->migrates = 1;
+        ABT_OK(ABT_thread_migrate_to_pool(self, sc_pool[0]));
     }
     for (int r = 0;; r++) {
         /* take the next call from the budget (no hook point between the test and the decrement) */
@@ -145,17 +154,37 @@ static void xbarrier_body(actor *a)
     }
 }
 
+/* the secondary streams are joined while the waiters of the last phase are still blocked in / leaving the barrier: a join
+ * returns only after every work unit that lives in the pool only that stream serves has finished */
+static void early_join(int lo, int hi, int nes)
+{
+    for (int x = 1; x < nes; x++) {
+        vs_log("apiCall xstream_join X%d", x);
+        ABT_OK(ABT_xstream_join(sc_xs[x]));
+        vs_note("apiRet xstream_join X%d", x);
+        for (int i = lo; i < hi; i++)
+            if (acts[i].kind != AK_EXT && acts[i].es == x && !acts[i].migrates && acts[i].user == NULL)
+                VSA_CHECK(acts[i].finished == 1, "ABT_xstream_join of X%d returned but A%d of its pool has started=%d finished=%d",
+                          x, i, acts[i].started, acts[i].finished);
+    }
+}
+
 /* own copies of sc_launch / sc_join_all working on an index range, so that actor ids stay unique over phases */
 static void launch(int lo, int hi)
 {
     for (int i = lo; i < hi; i++) {
         actor *a = &acts[i];
         a->id = i;
+        ABT_pool pl = sc_pool[a->es];
+        if (sc_shpool != ABT_POOL_NULL && a->kind != AK_EXT && a->es >= 1 && sc_rnd(2)) {
+            pl = sc_shpool;
+            a->user = (void *)1; /* lives in the pool that all secondary streams serve */
+        }
         if (a->kind == AK_ULT) {
-            ABT_OK(ABT_thread_create(sc_pool[a->es], sc_actor_entry, a, ABT_THREAD_ATTR_NULL, &a->th));
+            ABT_OK(ABT_thread_create(pl, sc_actor_entry, a, ABT_THREAD_ATTR_NULL, &a->th));
             vsa_name_thread(a->th, "A%d", i);
         } else if (a->kind == AK_TASK) {
-            ABT_OK(ABT_task_create(sc_pool[a->es], sc_actor_entry, a, (ABT_task *)&a->th));
+            ABT_OK(ABT_task_create(pl, sc_actor_entry, a, (ABT_task *)&a->th));
             vsa_name_thread(a->th, "A%d", i);
         } else {
             pthread_create(&a->pt, NULL, sc_actor_entry_pt, a);
@@ -210,6 +239,10 @@ int main(int argc, char **argv)
     int extra[2] = { (int)vsa_param(3, 0), (int)vsa_param(6, 0) };
     int rounds[2] = { (int)vsa_param(4, 2), (int)vsa_param(7, 2) };
     int extpct = (int)vsa_param(8, 30), ntask = (int)vsa_param(9, 0), reinit_mode = (int)vsa_param(10, 0);
+    int flags = (int)vsa_param(11, 0); /* 1: a pool shared by the secondary streams  2: early stream join  4: migration requests */
+    sc_shared = flags & 1;
+    b_early = (flags & 2) != 0 && !(flags & 1); /* (units blocked in a pool with several consumers keep no stream alive) */
+    b_migrate = (flags & 4) != 0;
     int next_total = 0;
     if (nes > MAX_ES)
         nes = MAX_ES;
@@ -268,6 +301,8 @@ int main(int argc, char **argv)
                 vs_note("actor A%d kind=%s es=%d", i, AKN[a->kind], a->es);
             }
             launch(base, base + n);
+            if (b_early && (p == 1 || rounds[1] == 0))
+                early_join(base, base + n, nes);
             join(base, base + n);
             phase_end("B0", (long)nw[p] * rounds[p]);
             if (m_reinit_inline)
